@@ -81,3 +81,44 @@ def fill(add):
         "numpy.einsum is the specification for string/interleaved forms; cases numpy rejects are skipped and counted.",
         "DESIGN.md 1/C12",
     )
+
+    add(
+        "C07",
+        "exploration",
+        GEN + " (conditional postcondition oracle)",
+        "Generated network x tree x prior slicing x targets x allow_outer x objective x temperature/seed/repeats through SliceFinder.search and tree.slice; whenever an answer is returned its predicted figures are compared with the tree actually sliced and with the independent cost model, and every target/forbidden-label condition is checked.",
+        "Conditional on the search returning (as the property is); refusals and crashes are counted, not judged.",
+        "DESIGN.md 1/C07",
+    )
+    add(
+        "C09",
+        "exploration",
+        GEN + "; exhaustive enumeration of all (2n-3)!! trees as optimality oracle",
+        "For each generated network (n<=6 quick, <=7 thorough) every binary tree is enumerated and scored by the independent cost model; the optimal finder's result must attain the minimum for each of 8 objectives, both search_outer settings and several initial cost caps.",
+        "Enumeration bound n<=7; networks constructed to have nothing to pre-simplify.",
+        "DESIGN.md 1/C09",
+    )
+    add(
+        "C18",
+        "exploration",
+        GEN + " (differential between four simulators and an independent model)",
+        "The same generated contraction order is replayed step by step through the tree, the hypergraph, the raw contraction processor and the annealer's local evaluator; label sets, counts, sizes and flops must coincide with each other and with the independent model; optimizer-reported costs must equal the cost of the returned tree.",
+        "Hypergraph arm restricted to ordinary networks; reported-cost arm uses simplify=True.",
+        "DESIGN.md 1/C18",
+    )
+    add(
+        "C19",
+        "exploration",
+        GEN + " (log-domain reference oracle)",
+        "Generated network x tree x sliced labels x per-tensor decimal scales up to 1e+-100 through tree.contract / array_contract / einsum with strip_exponent; compared in the log domain with the exact contraction of the unscaled integer bases.",
+        "Tolerance 1e-9 relative to the absolute-value contraction; strictly positive bases when slicing so the non-zero premise holds per slice.",
+        "DESIGN.md 1/C19",
+    )
+    add(
+        "C20",
+        "exploration",
+        GEN + " (metamorphic: uncapped == exact, capped <= uncapped)",
+        "Generated ordinary networks x tree x order x compress_late x chi; uncapped compressed estimates must equal the independent exact figures and capped ones must not exceed them; compressed finders must return complete ordered trees on connected ordinary networks.",
+        "Peak not asserted equal (different definitions); inputs counted in size/write by design.",
+        "DESIGN.md 1/C20",
+    )
